@@ -634,7 +634,7 @@ PROPS["C04"] = dict(
     sources=ENGINE + ["engine/cgen.c", "engine/refsem.c", "engine/refprog.c", "props/c04_csource.c"],
     ldflags=["-ldl"],
     set=CG_SETS,
-    excludes=[],
+    excludes=["const-two-lane-sizes"],   # known finding C02-const-two-lane-sizes: the float reference (doc semantics) must not be consulted on programs that contain it
     level="exploration",
     technique="differential property-based testing (rapidcheck): the C text Orc generates is compiled with gcc at case time and run against orc_executor_emulate on identical guarded arenas; plus a regenerate-and-compare of the checked-in emulator",
     level_text=("generated programs x three C-target forms (complete function, orcc's backup body, orcc's DISABLE_ORC body) x gcc -O0/-O2/-O3 x "
@@ -813,7 +813,7 @@ PROPS["C07"] = dict(
 PROPS["C08"] = dict(
     variant="tsan",
     confirm_any=True,       # a race or a deadlock shows in some interleavings only: one reproduction in six replays confirms a failure
-    sources=["props/c08_threads.c"],
+    sources=["props/c08_threads.c", "props/c08_once99.c"],
     level="exploration",
     technique="property-based concurrency testing (rapidcheck-generated per-thread operation lists with generated yields, all threads released by a barrier, fresh process per case) under ThreadSanitizer's happens-before race detection, with result and exactly-once counters as oracles",
     level_text=("generated workloads of 2..16 threads x 3..14 operations each (concurrent orc_init, compile/run/free of own programs for "
